@@ -208,7 +208,7 @@ def run_unit(unit):
     def _alarm(signum, frame):
         timed_out[0] = True
         raise _UnitTimeout()
-    limit = int(os.environ.get('PYVC_UNIT_TIMEOUT', getattr(unit, 'timeout', 240)))
+    limit = int(os.environ.get('PYVC_UNIT_TIMEOUT', getattr(unit, 'timeout', 900)))
     try:
         signal.signal(signal.SIGALRM, _alarm)
         signal.alarm(limit)
